@@ -276,9 +276,44 @@ func (r *rewriter) expr(n ast.Node) {
 			return false
 		case *ast.CallExpr:
 			r.mutexCall(n)
+			r.printCall(n)
 		}
 		return true
 	})
+}
+
+// printCall: fmt.Print/Printf/Println of the library (its debug mode) formats
+// its arguments as before and hands the text to simrt.Discard instead of the
+// process's standard output, which belongs to the runner.
+func (r *rewriter) printCall(c *ast.CallExpr) {
+	sel, ok := unparen(c.Fun).(*ast.SelectorExpr)
+	if !ok {
+		return
+	}
+	pkg, ok := sel.X.(*ast.Ident)
+	if !ok {
+		return
+	}
+	pn, ok := r.info.Uses[pkg].(*types.PkgName)
+	if !ok || pn.Imported().Path() != "fmt" {
+		return
+	}
+	var to string
+	switch sel.Sel.Name {
+	case "Printf":
+		to = "Sprintf"
+	case "Println":
+		to = "Sprintln"
+	case "Print":
+		to = "Sprint"
+	default:
+		return
+	}
+	id := r.newSite("print", c.Pos(), "fmt."+sel.Sel.Name, "", false)
+	inner := &ast.CallExpr{Fun: &ast.SelectorExpr{X: ident(pkg.Name), Sel: ident(to)}, Args: c.Args, Ellipsis: c.Ellipsis}
+	c.Fun = &ast.SelectorExpr{X: ident("simrt"), Sel: ident("Discard")}
+	c.Args = []ast.Expr{siteLit(id), inner}
+	c.Ellipsis = token.NoPos
 }
 
 // ---- A: map ranges ----
